@@ -460,6 +460,33 @@ func RunSubmitScenarios(c *Ctx) {
 					})
 				}
 			}
+			// submissions that are never answered (requests swallowed by a short outage) while the limit is reached: the
+			// node gives such a call up after its own deadline, sends again, and production resumes
+			if limit >= 1 {
+				synctest.Run(func() {
+					s := newSubRun(c, fmt.Sprintf("hung/ih%d/L%d", ih, limit), ih, limit, world.F{"src": "hung"})
+					defer s.finish()
+					if s.start() != nil {
+						return
+					}
+					s.produce("none")
+					s.tick()
+					s.tick()
+					s.w.DA.HangUntil = time.Now().Add(2 * daBlockTime)
+					for i := 0; i < int(limit)+1; i++ {
+						s.seedTx++
+						s.produce(fmt.Sprintf("p%d", s.seedTx))
+					}
+					for i := 0; i < 4 && !s.down(); i++ {
+						s.tick()
+					}
+					time.Sleep(90 * time.Second) // longer than the node's deadline for one submission call
+					synctest.Wait()
+					s.reapDead()
+					s.settle(int(limit)+1, false)
+					c.Count("scenarios", 1)
+				})
+			}
 			// a DA layer that acknowledges only a prefix of a submission and then fails for longer than one
 			// submission call keeps retrying: what it acknowledged must stop counting against the limit
 			if limit >= 2 {
